@@ -607,7 +607,9 @@ class Interp:
         keys = None
         if frame is not None:
             keys = [k for k, _ in eng.reg.mutable_keys() if k not in frame]
-        eng.havoc_heap(st, keys=keys)
+        # keep_local=False: objects allocated on this path BEFORE the loop may be mutated by the loop body, so their
+        # (non-const) fields are havocked like everything else; only the invariant / a proved loop frame keeps facts
+        eng.havoc_heap(st, keys=keys, keep_local=False)
         st.trace.append(Event("loop_cut", {"ordinal": ordinal}, self.site(node)))
         hook = getattr(c, "after_loop_havoc", None)
         if hook is not None and self.depth == 0:
